@@ -54,44 +54,7 @@ def run(ctx):
                         "after this mutation" % (m, cell), where=f.loc())
     ctx.floor("R1", n, 40, "maintenance obligations")
 
-    # ---- R1a mirrored endpoints in forward / backward adjacency
-    adj_fns = {"add_edge", "mark_deleted"}
-    nn = 0
-    for m in ("create_edge_versioned", "create_edge_with_id", "delete_edge_at_epoch"):
-        f = P.fn("LpgStore::" + m)
-        fx = FlowCx(P, f)
-        fw, bw = [], []
-        for bi, t in f.calls():
-            c = callee_name(t)
-            if c.startswith("grafeo_core::index::adjacency::ChunkedAdjacency::") and c.split("::")[-1] in adj_fns:
-                rt = fx.tags(t["args"][0])
-                node_arg = fx.tags(t["args"][1])
-                if "cell:LpgStore.forward_adj" in rt:
-                    fw.append((t, node_arg))
-                elif "cell:LpgStore.backward_adj" in rt:
-                    bw.append((t, node_arg))
-        if not fw and not bw:
-            raise CheckerError("C14-R1a: adjacency calls not found in LpgStore::%s" % m)
-        ctx.ob("R1a", "LpgStore::%s#both-directions" % m, bool(fw) and bool(bw),
-               what="LpgStore::%s updates the %s adjacency but not the %s one: outgoing and incoming neighbour lists disagree with the "
-                    "edge set" % (m, "forward" if fw else "backward", "backward" if fw else "forward"), where=f.loc())
-        if not fw or not bw:
-            continue
-        for (t1, a1) in fw:
-            for (t2, a2) in bw:
-                nn += 1
-                # the first endpoint handed to the two directions must come from different sources
-                k1 = {x for x in a1 if x.startswith(("param:", "cell:EdgeRecord."))}
-                k2 = {x for x in a2 if x.startswith(("param:", "cell:EdgeRecord."))}
-                d1, d2 = k1 - k2, k2 - k1
-                ok = bool(d1) and bool(d2)
-                # and where the record field is visible, forward keys on src, backward on dst
-                if "cell:EdgeRecord.src" in (k1 | k2) or "cell:EdgeRecord.dst" in (k1 | k2):
-                    ok = ok and "cell:EdgeRecord.src" in d1 and "cell:EdgeRecord.dst" in d2
-                ctx.ob("R1a", "LpgStore::%s#%s" % (m, callee_name(t1).split("::")[-1]), ok,
-                       what="LpgStore::%s keys the forward and the backward adjacency with the same endpoint (or the wrong one): "
-                            "outgoing and incoming neighbour lists disagree with the edge set" % m, where=f.loc(t1["line"]))
-    ctx.floor("R1a", nn, 3, "forward/backward adjacency call pairs")
+    adjacency_mirrored(ctx, P, "R1a", ("create_edge_versioned", "create_edge_with_id", "delete_edge_at_epoch"))
 
     common.index_move_order(ctx, P, "R3")
 
@@ -333,3 +296,62 @@ def positions_comparable(ctx, P, rule):
                                 % (short_id(f.id), "/".join(s1), sorted(r1 & r2), l1, l2), where=f.loc(l1))
     ctx.floor(rule, nsite, 40, "enumerate() call sites inspected")
     ctx.ob(rule, "no-mixed-index-spaces", True, what="no function mixes positions of a filtered view with positions of the sequence", where="")
+
+
+def adjacency_mirrored(ctx, P, rule, methods, floor=3):
+    # ---- R1a mirrored endpoints in forward / backward adjacency
+    adj_fns = {"add_edge", "mark_deleted"}
+    nn = 0
+    for m in methods:
+        f = P.fn("LpgStore::" + m)
+        fx = FlowCx(P, f)
+        fw, bw = [], []
+        for bi, t in f.calls():
+            c = callee_name(t)
+            if c.startswith("grafeo_core::index::adjacency::ChunkedAdjacency::") and c.split("::")[-1] in adj_fns:
+                rt = fx.tags(t["args"][0])
+                node_arg = fx.tags(t["args"][1])
+                if "cell:LpgStore.forward_adj" in rt:
+                    fw.append((t, node_arg))
+                elif "cell:LpgStore.backward_adj" in rt:
+                    bw.append((t, node_arg))
+        if not fw and not bw:
+            raise CheckerError("C14-R1a: adjacency calls not found in LpgStore::%s" % m)
+        ctx.ob(rule, "LpgStore::%s#both-directions" % m, bool(fw) and bool(bw),
+               what="LpgStore::%s updates the %s adjacency but not the %s one: outgoing and incoming neighbour lists disagree with the "
+                    "edge set" % (m, "forward" if fw else "backward", "backward" if fw else "forward"), where=f.loc())
+        if not fw or not bw:
+            continue
+        # the two directions are updated under the same conditions: whatever the backward update hangs on beyond "the backward
+        # adjacency exists" (Option::Some of the field), the forward update hangs on too - a backward update that is skipped
+        # for some edges (self-loops, say) leaves incoming lists and degrees without edges the forward side lists
+        def _conds(t):
+            bi_ = [b for b, tt in f.calls() if tt is t][0]
+            out = set()
+            for x in fx.facts_at(bi_):
+                if x[0] == "variant" and x[1] == "core::option::Option" and x[2] == "Some" and "cell:LpgStore.backward_adj" in str(x[3]):
+                    continue
+                out.add((x[0], str(x[1]), str(x[2])))
+            return out
+        for (t2, a2) in bw:
+            extra = _conds(t2) - set().union(*[_conds(t1) for (t1, a1) in fw])
+            ctx.ob(rule, "LpgStore::%s#backward-under-same-conditions" % m, not extra,
+                   what="LpgStore::%s updates the backward adjacency only under a condition the forward update does not have (%s): for the "
+                        "edges that fail it, incoming neighbour lists, in-degrees and undirected matches disagree with the edge set"
+                        % (m, sorted(extra)[:2]), where=f.loc(t2["line"]))
+        for (t1, a1) in fw:
+            for (t2, a2) in bw:
+                nn += 1
+                # the first endpoint handed to the two directions must come from different sources
+                k1 = {x for x in a1 if x.startswith(("param:", "cell:EdgeRecord."))}
+                k2 = {x for x in a2 if x.startswith(("param:", "cell:EdgeRecord."))}
+                d1, d2 = k1 - k2, k2 - k1
+                ok = bool(d1) and bool(d2)
+                # and where the record field is visible, forward keys on src, backward on dst
+                if "cell:EdgeRecord.src" in (k1 | k2) or "cell:EdgeRecord.dst" in (k1 | k2):
+                    ok = ok and "cell:EdgeRecord.src" in d1 and "cell:EdgeRecord.dst" in d2
+                ctx.ob(rule, "LpgStore::%s#%s" % (m, callee_name(t1).split("::")[-1]), ok,
+                       what="LpgStore::%s keys the forward and the backward adjacency with the same endpoint (or the wrong one): "
+                            "outgoing and incoming neighbour lists disagree with the edge set" % m, where=f.loc(t1["line"]))
+    ctx.floor(rule, nn, floor, "forward/backward adjacency call pairs")
+
